@@ -7,13 +7,13 @@
      rem_sites7_all = rem_sites6 minus excluded7_all;  rem_sites7 = rem_sites6 minus both. *)
 From Coq Require Import List NArith Arith Bool Lia Strings.String.
 From V Require Import Base.Bytes Base.Res Spec.EscapeSpec Model.Blocks Proofs.BlocksTotal4Safe.
-From V Require Proofs.BlocksTotal6 Proofs.BlocksTotal7Add Proofs.BlocksTotal7ContWalk Proofs.BlocksTotal7Atx Proofs.BlocksTotal7Fm Proofs.BlocksTotal7Loc Proofs.BlocksTotal7Cur.
+From V Require Proofs.BlocksTotal6 Proofs.BlocksTotal7Add Proofs.BlocksTotal7ContWalk Proofs.BlocksTotal7Atx Proofs.BlocksTotal7CodeFin Proofs.BlocksTotal7CodeWalk Proofs.BlocksTotal7Fm Proofs.BlocksTotal7Loc Proofs.BlocksTotal7Cur.
 Import ListNotations.
 Local Open Scope string_scope.
 Local Open Scope list_scope.
 
 (* the sites excluded in this round: for every input / for valid UTF-8 input only *)
-Definition excluded7_all : list string := BlocksTotal7Add.add_sites ++ BlocksTotal7ContWalk.cont_sites ++ BlocksTotal7Atx.atx_sites.
+Definition excluded7_all : list string := BlocksTotal7Add.add_sites ++ BlocksTotal7ContWalk.cont_sites ++ BlocksTotal7Atx.atx_sites ++ BlocksTotal7CodeFin.code_sites.
 Definition excluded7_utf8 : list string := BlocksTotal7Fm.fm_sites ++ BlocksTotal7Loc.loc_sites ++ BlocksTotal7Cur.cur7_sites.
 Definition excluded7 : list string := excluded7_all ++ excluded7_utf8.
 
@@ -25,7 +25,8 @@ Proof.
   unfold excluded7_all. intro H.
   apply in_app_or in H. destruct H as [H|H]; [exact (BlocksTotal7Add.parse_blocks_no_add_panic o x s H)|].
   apply in_app_or in H. destruct H as [H|H]; [exact (BlocksTotal7ContWalk.parse_blocks_no_cont_panic o x s H)|].
-  exact (BlocksTotal7Atx.parse_blocks_no_atx_panic o x s H).
+  apply in_app_or in H. destruct H as [H|H]; [exact (BlocksTotal7Atx.parse_blocks_no_atx_panic o x s H)|].
+  exact (BlocksTotal7CodeWalk.parse_blocks_no_code_panic o x s H).
 Qed.
 
 Theorem parse_blocks_no_panic7_utf8 o x s : utf8_valid x = true -> In s excluded7_utf8 -> parse_blocks o x <> Panic s.
